@@ -4,27 +4,28 @@ import os
 import numpy as np
 
 from .. import camx, lib
+from .. import landfmt as L
 from .. import slabfmt as S
 
 ID = 'C08'
 LEAN_MODULE = 'PncProofs.C08'
 LEAN_FILE = 'PncProofs/C08.lean'
 NAMESPACE = 'Props.C08'
-LEAN_CONE = ['PncModel.Words', 'PncModel.Camx.Uamiv', 'PncModel.Camx.Slab', 'PncProofs.WordsLemmas', 'PncProofs.UamivLemmas',
+LEAN_CONE = ['PncModel.Words', 'PncModel.Camx.Landuse', 'PncModel.Camx.Uamiv', 'PncModel.Camx.Slab', 'PncProofs.WordsLemmas', 'PncProofs.LanduseLemmas', 'PncProofs.LanduseThms', 'PncProofs.UamivLemmas',
              'PncProofs.BridgeLemmas', 'PncProofs.SlabLemmas', 'PncProofs.C13', 'PncProofs.C08']
 LEMMA_FILES = ['PncProofs/BridgeLemmas.lean']
 REQUIRED_THEOREMS = ['roundtrip', 'readers_agree_on_encodings', 'date_roundtrip', 'hours_roundtrip',
-                     'hour_bits_roundtrip', 'slab_roundtrip']
+                     'hour_bits_roundtrip', 'slab_roundtrip', 'landuse_roundtrip']
 RULE = ('CAMx-convention files (all NAME variants, 1-3 species, nx, ny 1-4, nz 1-3, 1-3 whole-hour steps of 1 or '
         '3 hours starting at any date 1970-2068 and hour, with day/year/leap/century roll-overs over-sampled, any '
         'finite float32 payload incl. denormals and -0, with and without ETFLAG) written by the library (pncgen '
         'format=uamiv), read back (Memmap), re-written and compared byte for byte; the model predicts the bytes '
         'and the view; slab formats (one3d, humidity, vertical diffusivity, temperature, height/pressure; 2-4 steps incl. '
         'midnight and year-end starts): written by the library writer, read back with the Memmap reader, compared with what '
-        'was written (model: Lean encoder + reader model) and re-written byte for byte; '
+        'was written (model: Lean encoder + reader model) and re-written byte for byte; landuse files (both styles, 0-2 optional fields, the fractions under either name, optional fields created in either order): written, read back, compared with the data set and the Lean writer/reader models, re-written byte for byte; '
         'non-trivial = two or more of nspec, cells, nz, nt > 1')
 ASSUMPTIONS = ['float32 <-> bits and numpy tofile/memmap are trusted',
-               'covers the uamiv family and the five slab formats; for lateral_boundary the write-back is part of C09; landuse, cloud_rain and wind round trips are not in this check']
+               'covers the uamiv family, the five slab formats and landuse; for lateral_boundary the write-back is part of C09; cloud_rain and wind round trips are not in this check']
 MIN_NONTRIVIAL = {'quick': 30, 'thorough': 300}
 
 
@@ -36,6 +37,8 @@ def gen(rng, tier):
         c['family'] = 'slab'
         c['vdtype'] = rng.choice(['f', 'f', 'd'])
         out.append(c)
+    for _ in range(n // 4):
+        out.append(L.gen(rng))          # landuse: family 'land'
     return out
 
 
@@ -65,6 +68,8 @@ def _impl_slab(case):
 
 
 def impl(case):
+    if case.get('family') == 'land':
+        return L.impl(case)
     if case.get('family') == 'slab':
         return _impl_slab(case)
     from PseudoNetCDF.pncgen import pncgen
@@ -97,6 +102,8 @@ def impl(case):
 
 
 def to_line(case, res):
+    if case.get('family') == 'land':
+        return L.to_line(case, res)
     if case.get('family') == 'slab':
         enc = lib.run_model(['bin slab-enc ' + S.lean_steps(case)])[0]
         return 'bin slab-mm %s %d %s' % (S.FORMATS[case['fmt']][0], case['nx'] * case['ny'], enc[3:] if enc.startswith('ok ') else '-')
@@ -108,6 +115,8 @@ def to_line(case, res):
 
 
 def agree(case, out, res):
+    if case.get('family') == 'land':
+        return L.agree(case, out, res)
     if case.get('family') == 'slab':
         if 'err' in res:
             return 'impl raised %s (%s)' % (res['err'], res.get('msg'))
@@ -163,6 +172,8 @@ def _oracle_slab(case, res):
 
 
 def oracle(case, res):
+    if case.get('family') == 'land':
+        return L.oracle_roundtrip(case, res)
     if case.get('family') == 'slab':
         return _oracle_slab(case, res)
     if 'err' in res:
@@ -196,6 +207,8 @@ def classify(case, failure, model_out):
 
 
 def nontrivial(case, res):
+    if case.get('family') == 'land':
+        return L.nontrivial(case, res)
     if case.get('family') == 'slab':
         return len({case['nz'], case['nx'] * case['ny'], len(case['flags'])} - {1}) >= 2
     dims = [len(case['species']), case['nx'] * case['ny'], case['nz'], len(case['tflag'])]
@@ -206,6 +219,10 @@ def distribution(recs):
     d = {}
     for r in recs:
         c = r['case']
+        if c.get('family') == 'land':
+            k = 'land_%s_%dopt' % ('new' if c['new'] else 'old', len(c['opts']))
+            d[k] = d.get(k, 0) + 1
+            continue
         if c.get('family') == 'slab':
             d['slab_' + c['fmt']] = d.get('slab_' + c['fmt'], 0) + 1
             continue
